@@ -31,6 +31,12 @@ def run_translators():
         r = sh([sys.executable, t, "--out", os.path.join(LEAN, "MeddlyModel", "Gen", "Terminal.lean"),
                 "--repo", B.REPO])
         out.append(("Gen.Terminal", r.returncode == 0, r.stdout[-2000:]))
+    for name, script, target in (("Gen.Levels", "levels_to_lean.py", "Levels.lean"),
+                                 ("Gen.HashStream", "hashstream_to_lean.py", "HashStream.lean")):
+        t = os.path.join(VERIF, "translate", script)
+        if os.path.exists(t):
+            r = sh([sys.executable, t, "--out", os.path.join(LEAN, "MeddlyModel", "Gen", target), "--repo", B.REPO])
+            out.append((name, r.returncode == 0, r.stdout[-2000:]))
     return out
 
 
